@@ -83,6 +83,41 @@ Proof.
   intros i Hi. rewrite forallb_forall in Hv. apply Hv. apply nth_In. lia.
 Qed.
 
+(* ---- a complete execution by the relayers of a committee ------------------------------------------ *)
+(* the expected outcome - k >= 1 relayers (the selected signers) broadcast the fully signed transaction
+   once, the others nothing - is accepted, with and without the obligation to sign *)
+Lemma btc_exec_ok_ideal : forall must n k j, 1 <= k ->
+  btc_exec_ok must n (repeat (1, repeat true n) k ++ repeat (0, []) j) = true.
+Proof.
+  intros must n k j Hk. unfold btc_exec_ok. apply andb_true_intro. split.
+  - apply forallb_forall. intros r Hr. apply in_app_or in Hr. destruct Hr as [Hr|Hr]; apply repeat_spec in Hr; subst r; cbn.
+    + rewrite repeat_length, Nat.eqb_refl. cbn. apply forallb_forall. intros b Hb. apply repeat_spec in Hb. exact Hb.
+    + reflexivity.
+  - destruct k as [|k]; [lia|]. cbn. apply orb_true_r.
+Qed.
+
+(* what the judge means: every relayer that broadcast anything broadcast valid signatures on all n
+   inputs, and under the obligation to sign some relayer did broadcast *)
+Lemma btc_exec_ok_sound : forall must n relayers, btc_exec_ok must n relayers = true ->
+  (forall r, In r relayers -> fst r <> 0 -> length (snd r) = n /\ forall i, i < n -> nth i (snd r) false = true) /\
+  (must = true -> exists r, In r relayers /\ fst r <> 0 /\ length (snd r) = n /\ forall i, i < n -> nth i (snd r) false = true).
+Proof.
+  intros must n relayers H. unfold btc_exec_ok in H. apply andb_prop in H. destruct H as [Hall Hex].
+  assert (Hone : forall r, In r relayers -> fst r <> 0 -> length (snd r) = n /\ forall i, i < n -> nth i (snd r) false = true).
+  { intros r Hr Hs. rewrite forallb_forall in Hall. exact (btc_sent_ok_sound n (fst r) (snd r) (Hall r Hr) Hs). }
+  split; [exact Hone|].
+  intro Hm. subst must. cbn in Hex. apply existsb_exists in Hex. destruct Hex as [r [Hr Hs]].
+  assert (Hne : fst r <> 0). { intro E. rewrite E in Hs. discriminate. }
+  exists r. split; [exact Hr|]. split; [exact Hne|]. exact (Hone r Hr Hne).
+Qed.
+
+(* without a single broadcast the obligation to sign is not met (a transfer whose inputs are never all
+   signed), while the plain judge has nothing to object to *)
+Lemma btc_exec_must_sign_refutes_silence :
+  btc_exec_ok true 2 [(0, [true; true]); (0, [true; true]); (0, [true; true])] = false /\
+  btc_exec_ok false 2 [(0, [true; true]); (0, [true; true]); (0, [true; true])] = true.
+Proof. split; reflexivity. Qed.
+
 (* ---- it never indexes out of range and it does send once every input has delivered ------------- *)
 Lemma set_slot_in_range : forall l k v, k < length l -> exists l', set_slot k v l = Some l'.
 Proof.
